@@ -264,6 +264,10 @@ def get_pedal_type_from_value(value, evaluate_name=None) -> Type:
         else:
             # Resort to just matching the types?
             return DictType([(k, v) for k, v in items])
+    if value is Ellipsis or isinstance(value, (bytes, bytearray)):
+        # Literals of builtin classes that have no Pedal type of their own
+        # (their class names cannot be looked up as student-defined classes)
+        return AnyType()
     if evaluate_name:
         new_instance = InstanceType(normalize_type(evaluate_name(type(value).__name__), evaluate_name))
         if fields and hasattr(value, '__dataclass_fields__'):
